@@ -127,7 +127,11 @@ void *lltd_port_malloc(size_t size) {
 void lltd_port_free(void *ptr) { vp_raw_free(ptr); }
 void *lltd_port_memset(void *ptr, int value, size_t num) { return memset(ptr, value, num); }
 void *lltd_port_memcpy(void *d, const void *s, size_t n) { return memcpy(d, s, n); }
-int lltd_port_memcmp(const void *a, const void *b, size_t n) { return memcmp(a, b, n); }
+int lltd_port_memcmp(const void *a, const void *b, size_t n) {
+    int r = memcmp(a, b, n);
+    /* only the sign of the result is specified: a word-at-a-time implementation may answer with any magnitude (`glob memcmprep=wide`) */
+    return vp_glob.memcmp_wide ? (r < 0 ? -0x10000 : r > 0 ? 0x7f00 : 0) : r;
+}
 
 VP_TL void (*vp_sleep_hook)(void) = NULL;    /* what another thread of the daemon does while this one sleeps (op `nest`) */
 void lltd_port_sleep_ms(uint32_t ms) {
@@ -171,14 +175,16 @@ int lltd_port_get_mtu(void *ctx, size_t *out) {
     *out = IFACE(ctx)->mtu; return 0;
 }
 int lltd_port_get_icon_image(void **out_data, size_t *out_size) {
-    if (!out_data || !out_size || !vp_glob.icon_present) return VP_FAILRC;
+    if (!out_data || !out_size) return VP_FAILRC;
+    if (!vp_glob.icon_present) { if (vp_glob.fail_size) *out_size = vp_glob.fail_size; return VP_FAILRC; }    /* size known, data not available */
     if (vp_glob.icon_len == 0) { *out_data = vp_glob.empty_block ? vp_raw_alloc(0) : NULL; *out_size = 0; return 0; }
     uint8_t *p = vp_raw_alloc(vp_glob.icon_len);
     memcpy(p, vp_glob.icon, vp_glob.icon_len);
     *out_data = p; *out_size = vp_glob.icon_len; return 0;
 }
 int lltd_port_get_friendly_name(void **out_data, size_t *out_size) {
-    if (!out_data || !out_size || !vp_glob.fname_present) return VP_FAILRC;
+    if (!out_data || !out_size) return VP_FAILRC;
+    if (!vp_glob.fname_present) { if (vp_glob.fail_size) *out_size = vp_glob.fail_size; return VP_FAILRC; }
     if (vp_glob.fname_len == 0) { *out_data = vp_glob.empty_block ? vp_raw_alloc(0) : NULL; *out_size = 0; return 0; }
     uint8_t *p = vp_raw_alloc(vp_glob.fname_len);
     memcpy(p, vp_glob.fname, vp_glob.fname_len);
@@ -242,5 +248,12 @@ int lltd_port_get_wifi_rssi_dbm(void *ctx, int8_t *out) {
 int lltd_port_get_wifi_phy_medium(void *ctx, uint32_t *out) { (void)ctx; if (out) *out = 0; return VP_FAILRC; }
 
 static VP_TL unsigned long log_calls = 0;
-void lltd_port_log_debug(const char *fmt, ...) { (void)fmt; log_calls++; }
-void lltd_port_log_warning(const char *fmt, ...) { (void)fmt; log_calls++; }
+/* the log lines are FORMATTED (into a scratch buffer that is thrown away), as every port of the repository does: a format that
+ * does not match its arguments is undefined behaviour of the frame handler, and the sanitizers can only see it if it happens */
+static void vp_format_log(const char *fmt, va_list ap) {
+    char line[2048];
+    if (fmt) (void)vsnprintf(line, sizeof(line), fmt, ap);
+    log_calls++;
+}
+void lltd_port_log_debug(const char *fmt, ...) { va_list ap; va_start(ap, fmt); vp_format_log(fmt, ap); va_end(ap); }
+void lltd_port_log_warning(const char *fmt, ...) { va_list ap; va_start(ap, fmt); vp_format_log(fmt, ap); va_end(ap); }
